@@ -63,6 +63,9 @@ struct Ref {
     segs: Vec<Option<Name>>,
     #[serde(default)]
     dot: bool,
+    /// nested part of a from-path: `from a.b.c import …` → root a, sub [b, c]
+    #[serde(default)]
+    sub: Vec<Name>,
 }
 
 impl From<Name> for Ref {
@@ -91,18 +94,20 @@ impl<'de> Deserialize<'de> for Ref {
                 segs: Vec<Option<Name>>,
                 #[serde(default)]
                 dot: bool,
+                #[serde(default)]
+                sub: Vec<Name>,
             },
         }
         Ok(match Repr::deserialize(d)? {
             Repr::N(n) => n.into(),
-            Repr::Full { name, str_, segs, dot } => Ref { name, str_, segs, dot },
+            Repr::Full { name, str_, segs, dot, sub } => Ref { name, str_, segs, dot, sub },
         })
     }
 }
 
 impl Ref {
     fn sexp(&self) -> String {
-        if !self.str_ && self.segs.is_empty() {
+        if !self.str_ && self.segs.is_empty() && self.sub.is_empty() {
             self.name.to_string()
         } else {
             let mut s = format!("(r {} {}", self.name, self.str_ as u8);
@@ -111,6 +116,13 @@ impl Ref {
                     Some(n) => s.push_str(&format!(" {}", n)),
                     None => s.push_str(" .."),
                 }
+            }
+            if !self.sub.is_empty() {
+                s.push_str(" (sub");
+                for k in &self.sub {
+                    s.push_str(&format!(" {}", k));
+                }
+                s.push(')');
             }
             s.push(')');
             s
@@ -133,7 +145,12 @@ impl Ref {
         s
     }
     fn src(&self) -> String {
-        if self.str_ { format!("'{}'", self.path_text()) } else { name_str(self.name) }
+        let mut s = if self.str_ { format!("'{}'", self.path_text()) } else { name_str(self.name) };
+        for k in &self.sub {
+            s.push('.');
+            s.push_str(&name_str(*k));
+        }
+        s
     }
 }
 
@@ -150,7 +167,7 @@ struct Item {
 
 impl Item {
     fn rf(&self) -> Ref {
-        Ref { name: self.name, str_: self.str_, segs: self.segs.clone(), dot: false }
+        Ref { name: self.name, str_: self.str_, segs: self.segs.clone(), dot: false, sub: vec![] }
     }
     /// the local the item binds, if any
     fn target(&self) -> Option<Name> {
@@ -200,6 +217,8 @@ enum Act {
     From(Ref, Vec<Item>),
     FromAll(Ref),
     Try(Ref, u32),
+    /// guarded read: `try` / `print "S<mk>={k}"` / `catch` / `print 'C<mk>:<class>'`
+    TShow(u32, Name),
     Fail(u32),
     /// `[export] t1, t2, … = r1, r2, …`
     Pat(bool, Vec<Target>, Vec<Rhs>),
@@ -375,6 +394,8 @@ struct Flags {
     str_alias: bool,
     /// Cfg.exportsFirst (F-C18-7)
     exports_first: bool,
+    /// Cfg.wildRefresh (F-C18-10)
+    wild_refresh: bool,
 }
 
 /// names 200 + 10·a + b are the dotted module names `m<a>.v<b>`
@@ -426,6 +447,7 @@ fn act_sexp(a: &Act) -> String {
         Act::FromAll(m) => format!("(fromall {})", m.sexp()),
         Act::Try(m, mk) => format!("(try {} {})", Ref { str_: true, ..m.clone() }.sexp(), mk),
         Act::Fail(mk) => format!("(fail {})", mk),
+        Act::TShow(mk, k) => format!("(tshow {} {})", mk, k),
         Act::Cmp(k, op, r) => format!("(cmp {} {} {})", k, op.atom(), rhs_sexp(r)),
         Act::Loop(n, k, op, r) => format!("(loop {} {} {} {})", n, k, op.atom(), rhs_sexp(r)),
         Act::Cond(f, k, v) => format!("(cond {} {} {})", f, k, v),
@@ -477,13 +499,14 @@ fn path_sexp(p: &MPath) -> String {
 
 fn request(sc: &Scenario) -> String {
     let mut s = format!(
-        "run (cfg {} {} {} {} {} {} (stems",
+        "run (cfg {} {} {} {} {} {} {} (stems",
         sc.run_import_tests as u8,
         sc.host_tests as u8,
         sc.flags.alias as u8,
         sc.flags.canon as u8,
         sc.flags.str_alias as u8,
-        sc.flags.exports_first as u8
+        sc.flags.exports_first as u8,
+        sc.flags.wild_refresh as u8
     );
     if !sc.flags.dotted {
         // what Path::with_extension keeps of a dotted module name
@@ -539,10 +562,27 @@ fn act_src(a: &Act, ind: &str, out: &mut Vec<String>) {
             items.iter().map(item_src).collect::<Vec<_>>().join(", ")
         )),
         Act::FromAll(m) => out.push(format!("{ind}from {} import *", m.src())),
+        Act::TShow(mk, k) => {
+            out.push(format!("{ind}try"));
+            out.push(format!("{ind}  print \"S{mk}={{{}}}\"", name_str(*k)));
+            catch_src(*mk, ind, out);
+        }
         Act::Try(m, mk) => {
             out.push(format!("{ind}try"));
             out.push(format!("{ind}  import '{}'", m.path_text()));
-            out.push(format!("{ind}catch zerr"));
+            catch_src(*mk, ind, out);
+        }
+        Act::Fail(mk) => out.push(format!("{ind}throw 'boom{mk}'")),
+        _ => act_src_rest(a, ind, out),
+    }
+}
+
+/// `catch zerr` + a handler that prints `C<mk>:<class>` (no assignment in the handler: with
+/// export_top_level_ids it would be exported)
+fn catch_src(mk: u32, ind: &str, out: &mut Vec<String>) {
+    out.push(format!("{ind}catch zerr"));
+    {
+        {
             // no assignment in the handler: with export_top_level_ids it would be exported
             let mut first = true;
             for (pat, cls) in [
@@ -565,7 +605,11 @@ fn act_src(a: &Act, ind: &str, out: &mut Vec<String>) {
             out.push(format!("{ind}  else"));
             out.push(format!("{ind}    print 'C{mk}:other'"));
         }
-        Act::Fail(mk) => out.push(format!("{ind}throw 'boom{mk}'")),
+    }
+}
+
+fn act_src_rest(a: &Act, ind: &str, out: &mut Vec<String>) {
+    match a {
         Act::Cmp(k, op, r) => out.push(format!("{ind}{} {} {}", name_str(*k), op.src(), rhs_src(r))),
         Act::Loop(n, k, op, r) => {
             out.push(format!("{ind}for zi in 0..{}", n));
@@ -634,6 +678,7 @@ fn act_src(a: &Act, ind: &str, out: &mut Vec<String>) {
                 .collect();
             out.push(format!("{ind}{}{} = {}", if *e { "export " } else { "" }, tsrc.join(", "), rsrc.join(", ")));
         }
+        _ => {}
     }
 }
 
@@ -816,19 +861,63 @@ fn write_scenario(root: &Path, sc: &Scenario) {
 }
 
 /// Runs the history on one fresh runtime. Err = a panic message.
+/// One of the ways the koto crate's host API lets a host express the SAME configuration
+/// (configuration-spelling invariance): how CompileArgs are built (struct literal, field mutation, the
+/// builder methods script_path / export_top_level_ids / enable_type_checks in every order), whether the
+/// script is run by compile_and_run or by compile + run, and how KotoSettings are built (struct literal
+/// or field mutation of the default, then the builder methods with_stdout / with_stderr /
+/// with_module_imported_callback / with_args / with_execution_limit in any order).
+#[derive(Clone, Copy, Debug, PartialEq)]
+struct Spelling {
+    /// 0 struct literal, 1..=6 the permutations of the three builder methods, 7 field mutation
+    args: u8,
+    two_step: bool,
+    /// permutation index (0..120) of the five KotoSettings builder methods, + 120 = field mutation
+    settings: u8,
+}
+
+impl Spelling {
+    const DEFAULT: Spelling = Spelling { args: 0, two_step: false, settings: 0 };
+    fn from_hash(h: u64) -> Spelling {
+        Spelling { args: (h % 8) as u8, two_step: (h >> 8) & 1 == 1, settings: ((h >> 16) % 240) as u8 }
+    }
+}
+
+/// the k-th permutation of 0..n
+fn permutation(n: usize, mut k: usize) -> Vec<usize> {
+    let mut items: Vec<usize> = (0..n).collect();
+    let mut out = vec![];
+    for i in (1..=n).rev() {
+        let f: usize = (1..i).product();
+        let idx = (k / f) % i;
+        k %= f;
+        out.push(items.remove(idx));
+    }
+    out
+}
+
 fn run_impl(scratch: &mut Scratch, sc: &Scenario) -> Result<Vec<OpOut>, String> {
+    run_impl_sp(scratch, sc, Spelling::DEFAULT)
+}
+
+fn run_impl_sp(scratch: &mut Scratch, sc: &Scenario, sp: Spelling) -> Result<Vec<OpOut>, String> {
     let root = scratch.next_dir();
     write_scenario(&root, sc);
     let buf = Rc::new(RefCell::new(String::new()));
     let cb_buf = buf.clone();
     let cb_root = root.clone();
-    let settings = KotoSettings {
-        run_tests: sc.host_tests,
-        vm_settings: KotoVmSettings { run_import_tests: sc.run_import_tests, ..Default::default() },
-    }
-    .with_stdout(Capture { buf: buf.clone() })
-    .with_stderr(Capture { buf: Rc::new(RefCell::new(String::new())) })
-    .with_module_imported_callback(move |p: &Path| {
+    let mut settings = if sp.settings >= 120 {
+        let mut s = KotoSettings::default();
+        s.run_tests = sc.host_tests;
+        s.vm_settings.run_import_tests = sc.run_import_tests;
+        s
+    } else {
+        KotoSettings {
+            run_tests: sc.host_tests,
+            vm_settings: KotoVmSettings { run_import_tests: sc.run_import_tests, ..Default::default() },
+        }
+    };
+    let mut callback = Some(move |p: &Path| {
         let rel = p.strip_prefix(&cb_root).map(|r| r.to_string_lossy().to_string()).unwrap_or_else(|_| format!("ABS{}", p.display()));
         // `.` components are kept by PathBuf's display but ignored by its equality (the cache key)
         let rel = rel.split('/').filter(|c| *c != ".").collect::<Vec<_>>().join("/");
@@ -837,6 +926,15 @@ fn run_impl(scratch: &mut Scratch, sc: &Scenario) -> Result<Vec<OpOut>, String> 
         b.push_str(&rel);
         b.push('\n');
     });
+    for step in permutation(5, (sp.settings % 120) as usize) {
+        settings = match step {
+            0 => settings.with_stdout(Capture { buf: buf.clone() }),
+            1 => settings.with_stderr(Capture { buf: Rc::new(RefCell::new(String::new())) }),
+            2 => settings.with_module_imported_callback(callback.take().unwrap()),
+            3 => settings.with_args(vec!["arg".to_string()]),
+            _ => settings.with_execution_limit(std::time::Duration::from_secs(600)),
+        };
+    }
     let res = kvh::catch(|| {
         let mut koto = Koto::with_settings(settings);
         let mut outs = vec![];
@@ -846,12 +944,39 @@ fn run_impl(scratch: &mut Scratch, sc: &Scenario) -> Result<Vec<OpOut>, String> 
                 Some(n) => dir_path(&root, &op.dir).join(format!("{}.koto", name_str(n))),
                 None => dir_path(&root, &op.dir).join("_host.koto"),
             };
-            let args = CompileArgs {
-                script: &script,
-                script_path: Some(script_path.to_string_lossy().to_string().into()),
-                compiler_settings: CompilerSettings { export_top_level_ids: op.export_top, ..Default::default() },
+            let path_text = script_path.to_string_lossy().to_string();
+            let args = match sp.args {
+                0 => CompileArgs {
+                    script: &script,
+                    script_path: Some(path_text.clone().into()),
+                    compiler_settings: CompilerSettings { export_top_level_ids: op.export_top, ..Default::default() },
+                },
+                7 => {
+                    let mut a: CompileArgs = script.as_str().into();
+                    a.script_path = Some(path_text.clone().into());
+                    a.compiler_settings.export_top_level_ids = op.export_top;
+                    a
+                }
+                k => {
+                    let mut a = CompileArgs::new(&script);
+                    for step in permutation(3, (k - 1) as usize) {
+                        a = match step {
+                            0 => a.script_path(path_text.clone()),
+                            1 => a.export_top_level_ids(op.export_top),
+                            _ => a.enable_type_checks(true),
+                        };
+                    }
+                    a
+                }
             };
-            let r = koto.compile_and_run(args);
+            let r = if sp.two_step {
+                match koto.compile(args) {
+                    Ok(chunk) => koto.run(chunk),
+                    Err(e) => Err(e),
+                }
+            } else {
+                koto.compile_and_run(args)
+            };
             let result = match r {
                 Ok(_) => "ok".to_string(),
                 Err(e) => {
@@ -962,13 +1087,13 @@ fn mod_infos(sc: &Scenario) -> Option<Vec<ModInfo>> {
         let mut simple = top.is_some();
         for t in b {
             match t {
-                TAct::A(Act::Print(m)) | TAct::A(Act::Show(m, _)) | TAct::A(Act::Try(_, m)) => note(*m),
+                TAct::A(Act::Print(m)) | TAct::A(Act::Show(m, _)) | TAct::A(Act::Try(_, m)) | TAct::A(Act::TShow(m, _)) => note(*m),
                 TAct::A(_) => {}
                 TAct::Main(mk, body) => {
                     note(*mk);
                     mains.push(*mk);
                     for a in body {
-                        if let Act::Print(m) | Act::Show(m, _) | Act::Try(_, m) = a {
+                        if let Act::Print(m) | Act::Show(m, _) | Act::Try(_, m) | Act::TShow(m, _) = a {
                             note(*m)
                         }
                     }
@@ -980,7 +1105,7 @@ fn mod_infos(sc: &Scenario) -> Option<Vec<ModInfo>> {
                     }
                     tests.push(*mk);
                     for a in body {
-                        if let Act::Print(m) | Act::Show(m, _) | Act::Try(_, m) = a {
+                        if let Act::Print(m) | Act::Show(m, _) | Act::Try(_, m) | Act::TShow(m, _) = a {
                             note(*m)
                         }
                     }
@@ -988,7 +1113,7 @@ fn mod_infos(sc: &Scenario) -> Option<Vec<ModInfo>> {
                 TAct::Fn(_, mk, body) => {
                     note(*mk);
                     for a in body {
-                        if let Act::Print(m) | Act::Show(m, _) | Act::Try(_, m) = a {
+                        if let Act::Print(m) | Act::Show(m, _) | Act::Try(_, m) | Act::TShow(m, _) = a {
                             note(*m)
                         }
                     }
@@ -1007,12 +1132,12 @@ fn mod_infos(sc: &Scenario) -> Option<Vec<ModInfo>> {
         }
         for t in &o.body {
             match t {
-                TAct::A(Act::Print(m)) | TAct::A(Act::Show(m, _)) | TAct::A(Act::Try(_, m)) => note(*m),
+                TAct::A(Act::Print(m)) | TAct::A(Act::Show(m, _)) | TAct::A(Act::Try(_, m)) | TAct::A(Act::TShow(m, _)) => note(*m),
                 TAct::A(_) => {}
                 TAct::Main(mk, body) | TAct::Test(_, mk, body) | TAct::Fn(_, mk, body) => {
                     note(*mk);
                     for a in body {
-                        if let Act::Print(m) | Act::Show(m, _) | Act::Try(_, m) = a {
+                        if let Act::Print(m) | Act::Show(m, _) | Act::Try(_, m) | Act::TShow(m, _) = a {
                             note(*m)
                         }
                     }
@@ -1362,7 +1487,7 @@ fn direct_laws(sc: &Scenario, outs: &[OpOut], open: &[String], attributed: &mut 
                             exp.insert(*k, Some(last as i64));
                         }
                     }
-                    Act::Print(_) | Act::Show(..) | Act::Try(..) | Act::Fail(_) => {}
+                    Act::Print(_) | Act::Show(..) | Act::Try(..) | Act::TShow(..) | Act::Fail(_) => {}
                 }
             }
             if all_unknown {
@@ -2174,6 +2299,107 @@ fn wild_family(rng: &mut Rng) -> Scenario {
     Scenario { run_import_tests: rng.chance(2, 3), host_tests: false, prelude: vec![], files, ops, family: "wildcards".into(), flags: Flags::default() }
 }
 
+/// nested from-path family: three levels of modules, each exporting its own marker names plus the next
+/// level (`m1` ⊃ `m2` ⊃ `m3`; flat files or a directory module with its helpers); wildcard and
+/// item imports over from-paths of 1–3 components whose root is a module on disk, a local of the same
+/// script, or an export of an earlier script; afterwards EVERY marker name of EVERY level is probed
+/// (guarded reads): exactly the names the model says are visible may be found
+fn nested_family(rng: &mut Rng) -> Scenario {
+    let mut mk = 0u32;
+    let mut next = || {
+        mk += 1;
+        mk
+    };
+    let dir_variant = rng.chance(1, 2);
+    let base: Vec<Name> = if dir_variant { vec![1] } else { vec![] };
+    let mut files = vec![];
+    // level 3
+    files.push(FileDef { fn_defaults: 0, path: MPath { dir: base.clone(), name: 3, is_dir: false }, body: Some(vec![TAct::A(Act::Print(next())), TAct::A(Act::Export(63, 33)), TAct::A(Act::Export(65, 35))]) });
+    // level 2 (a file, or a directory module of its own when the root is flat)
+    let m2_dir = !dir_variant && rng.chance(1, 3);
+    let mut b2 = vec![TAct::A(Act::Print(next()))];
+    if m2_dir {
+        // m2/main.koto finds m3 next to itself
+        files.push(FileDef { fn_defaults: 0, path: MPath { dir: vec![2], name: 3, is_dir: false }, body: Some(vec![TAct::A(Act::Print(next())), TAct::A(Act::Export(63, 33)), TAct::A(Act::Export(65, 35))]) });
+    }
+    b2.push(TAct::A(Act::Import(vec![Item { name: 3, as_: None, ..Default::default() }])));
+    b2.push(TAct::A(Act::Export(62, 22)));
+    b2.push(TAct::A(Act::Export(64, 24)));
+    b2.push(TAct::A(Act::ExportId(3, 3)));
+    files.push(FileDef { fn_defaults: 0, path: MPath { dir: base.clone(), name: 2, is_dir: m2_dir }, body: Some(b2) });
+    // level 1
+    let mut b1 = vec![TAct::A(Act::Print(next())), TAct::A(Act::Import(vec![Item { name: 2, as_: None, ..Default::default() }])), TAct::A(Act::Export(60, 10)), TAct::A(Act::Export(61, 11)), TAct::A(Act::ExportId(2, 2))];
+    if rng.chance(1, 3) {
+        b1.push(TAct::Main(next(), vec![]));
+    }
+    files.push(FileDef { fn_defaults: 0, path: if dir_variant { MPath { dir: vec![], name: 1, is_dir: true } } else { MPath { dir: vec![], name: 1, is_dir: false } }, body: Some(b1) });
+    let probes: [Name; 8] = [60, 61, 62, 63, 64, 65, 2, 3];
+    let paths: Vec<Vec<Name>> = vec![vec![], vec![2], vec![2, 3], vec![2], vec![2, 3], vec![3], vec![60], vec![2, 62]];
+    let stmt = |rng: &mut Rng, root: Ref| -> Act {
+        if rng.chance(3, 5) {
+            Act::FromAll(root)
+        } else {
+            let n = 1 + rng.below(2);
+            let items = (0..n).map(|_| Item { name: *rng.pick(&probes), as_: if rng.chance(1, 3) { Some(66) } else { None }, ..Default::default() }).collect();
+            Act::From(root, items)
+        }
+    };
+    // m4: a module that imports over a nested path and re-exports what it sees
+    let sub = rng.pick(&paths).clone();
+    let mut b4 = vec![TAct::A(Act::Print(next()))];
+    if rng.chance(1, 2) {
+        b4.push(TAct::A(Act::Import(vec![Item { name: 1, as_: None, ..Default::default() }])));
+    }
+    b4.push(TAct::A(stmt(rng, Ref { name: 1, sub, ..Default::default() })));
+    for k in probes.iter() {
+        if rng.chance(1, 2) {
+            b4.push(TAct::A(Act::TShow(next(), *k)));
+        }
+    }
+    b4.push(TAct::Test(70, next(), probes.iter().filter(|_| rng.chance(1, 3)).map(|k| Act::TShow(next(), *k)).collect()));
+    files.push(FileDef { fn_defaults: 0, path: MPath { dir: vec![], name: 4, is_dir: false }, body: Some(b4) });
+    // host
+    let mut ops = vec![];
+    for _ in 0..(2 + rng.below(3)) {
+        let et = rng.chance(1, 4);
+        let mut body = vec![];
+        let sub = rng.pick(&paths).clone();
+        match rng.below(5) {
+            0 => {
+                // root is a local of the same script (avoid the F-C18-2 shape: nested paths are fine,
+                // a one-component wildcard on a local under export_top_level_ids is fixed too)
+                body.push(TAct::A(Act::Import(vec![Item { name: 1, as_: None, ..Default::default() }])));
+                body.push(TAct::A(stmt(rng, Ref { name: 1, sub, ..Default::default() })));
+            }
+            1 => {
+                // root under another local name
+                body.push(TAct::A(Act::Import(vec![Item { name: 1, as_: Some(67), ..Default::default() }])));
+                body.push(TAct::A(stmt(rng, Ref { name: 67, sub, ..Default::default() })));
+            }
+            2 => {
+                body.push(TAct::A(Act::Try(4.into(), next())));
+                let sub4 = if rng.chance(1, 2) { vec![] } else { vec![*rng.pick(&probes)] };
+                body.push(TAct::A(stmt(rng, Ref { name: 4, sub: sub4, ..Default::default() })));
+            }
+            3 => {
+                // root is a string import with the nested path after it
+                body.push(TAct::A(stmt(rng, Ref { name: 1, str_: true, sub, ..Default::default() })));
+            }
+            _ => body.push(TAct::A(stmt(rng, Ref { name: 1, sub, ..Default::default() }))),
+        }
+        for k in probes.iter().chain([66u32].iter()) {
+            if rng.chance(3, 4) {
+                body.push(TAct::A(Act::TShow(next(), *k)));
+            }
+        }
+        if rng.chance(1, 4) {
+            body.push(TAct::A(Act::ExportId(1, 1)));
+        }
+        ops.push(Op { script: None, fn_defaults: 0, dir: vec![], export_top: et, body });
+    }
+    Scenario { run_import_tests: rng.chance(1, 2), host_tests: false, prelude: vec![], files, ops, family: "nested-paths".into(), flags: Flags::default() }
+}
+
 /// top-level-ids family (REPL mode): host scripts that assign, compound-assign (+= -= *= %= ^=, also in
 /// `for` loops), assign inside `if`/`match`, and multi-assign ids that were first assigned in the SAME
 /// script and in EARLIER scripts, mostly with export_top_level_ids; names include prelude names; after
@@ -2389,7 +2615,7 @@ fn spelling(rng: &mut Rng, from: &[Name], to: &[Name], name: Name, dirs: &[Vec<N
     for d in &to[common..] {
         segs.push(Some(*d));
     }
-    Ref { name, str_: true, segs, dot: rng.chance(1, 6) }
+    Ref { name, str_: true, segs, dot: rng.chance(1, 6), sub: vec![] }
 }
 
 /// path-spelling family: one shared module reached from several folders under different spellings
@@ -2412,7 +2638,7 @@ fn spellings_family(rng: &mut Rng) -> Scenario {
     }
     if rng.chance(1, 4) {
         // imports itself under another spelling (guarded)
-        let r = Ref { name: 1, str_: true, segs: vec![Some(5), None], dot: false };
+        let r = Ref { name: 1, str_: true, segs: vec![Some(5), None], dot: false, sub: vec![] };
         b.push(TAct::A(Act::Try(r, next())));
     }
     files.push(FileDef { fn_defaults: 0, path: MPath { dir: vec![], name: 1, is_dir: false }, body: Some(b) });
@@ -2712,14 +2938,45 @@ impl Ctx {
         self.rep.bump(&format!("family={}", sc.family));
         self.rep.bump(&format!("files={}", sc.files.len().min(9)));
         self.rep.bump(&format!("ops={}", sc.ops.len().min(9)));
-        let outs = match run_impl(&mut self.scratch, sc) {
+        // the scenario is run through ONE of the host-API spellings of its configuration, chosen by a
+        // hash of the request, so that over a run every spelling is compared with the model (K) …
+        let h = kvh::fnv1a(req.as_bytes());
+        let sp = Spelling::from_hash(h);
+        self.rep.bump(&format!("spelling_args={}{}", sp.args, if sp.two_step { "+compile/run" } else { "" }));
+        let outs = match run_impl_sp(&mut self.scratch, sc, sp) {
             Ok(o) => o,
             Err(p) => {
                 self.d_fail += 1;
-                self.rep.violation("D", "C18:no-panic", json!({"scenario": sc, "request": req, "panic": p}));
+                self.rep.violation("D", "C18:no-panic", json!({"scenario": sc, "request": req, "spelling": format!("{:?}", sp), "panic": p}));
                 return false;
             }
         };
+        // … and for a sample of the scenarios ALL CompileArgs spellings (with alternating run style and
+        // varying KotoSettings spellings) must give the same observable outputs (D, model-independent)
+        if (h >> 32) % 8 == 0 {
+            let base: Vec<String> = outs.iter().map(|o| o.text()).collect();
+            for a in 0..8u8 {
+                let other = Spelling { args: a, two_step: (a % 2 == 1) != sp.two_step, settings: ((h >> 40) as usize % 240 + 31 * a as usize) as u8 % 240 };
+                if other == sp {
+                    continue;
+                }
+                self.rep.bump("spelling_invariance_runs");
+                let o2 = run_impl_sp(&mut self.scratch, sc, other).map(|o| o.iter().map(|x| x.text()).collect::<Vec<_>>());
+                if o2.as_ref().ok() != Some(&base) {
+                    self.d_fail += 1;
+                    if self.d_fail <= 5 {
+                        self.rep.violation(
+                            "D",
+                            "C18:law:spelling-invariance",
+                            json!({"scenario": sc, "request": req, "spelling_a": format!("{:?}", sp), "spelling_b": format!("{:?}", other),
+                                   "outputs_a": base, "outputs_b": o2.unwrap_or_else(|p| vec![format!("panic: {}", p)]),
+                                   "detail": "two host-API spellings of the same configuration give different exports/imports"}),
+                        );
+                    }
+                    return false;
+                }
+            }
+        }
         for o in &outs {
             self.rep.bump(&format!("result={}", o.result.split(':').take(2).collect::<Vec<_>>().join(":")));
             for e in &o.events {
@@ -2837,7 +3094,7 @@ fn main() {
     kvh::quiet_panics();
     let args = Args::parse();
     let mut rep = Report::new("C18", &args);
-    rep.rule = "case = scenario (settings + module files + history of host scripts run by one runtime); generated by seeded graph families (chain, diamond, cycles 1-3, failing top level/@test/@main, file and directory modules), a path-spelling family (one module reached from several folders as '../m', 'd/../m', './m', m; shadowing modules; dotted module names; string import items with/without `as`), a top-level-ids family (REPL mode: assignments, compound assignments += -= *= %= ^= also in loops, assignments inside if/match, multi-assignments to ids first assigned in the same and in earlier scripts, names that coincide with prelude entries; exports() compared with the computed final values), an exported-functions family (functions that export / read non-locals / import, called by their own module, by importers and by host scripts), a wildcard-import family (overlapping export keys, import orders with repeats, closures created at different points), an exported-assignment family (every assignment-target shape allowed under export: ids, `_`, map patterns with plain/`as`/string-key/ignored entries, single and multi-target, export keyword and export_top_level_ids; observed via importer, wildcard import, host exports() and non-local reads in functions), a random file-system/history generator, a bounded-exhaustive sweep over all 3-module import graphs x failure placements, and the corpus; distinct = distinct request lines; non-trivial = at least one module file, one operation and two module statements".into();
+    rep.rule = "case = scenario (settings + module files + history of host scripts run by one runtime); generated by seeded graph families (chain, diamond, cycles 1-3, failing top level/@test/@main, file and directory modules), a path-spelling family (one module reached from several folders as '../m', 'd/../m', './m', m; shadowing modules; dotted module names; string import items with/without `as`), a nested from-path family (wildcard/item imports over from-paths of 1-3 components through three module levels with distinct marker names, roots on disk / local / exported earlier; every marker of every level probed afterwards), a top-level-ids family (REPL mode: assignments, compound assignments += -= *= %= ^= also in loops, assignments inside if/match, multi-assignments to ids first assigned in the same and in earlier scripts, names that coincide with prelude entries; exports() compared with the computed final values), an exported-functions family (functions that export / read non-locals / import, called by their own module, by importers and by host scripts), a wildcard-import family (overlapping export keys, import orders with repeats, closures created at different points), an exported-assignment family (every assignment-target shape allowed under export: ids, `_`, map patterns with plain/`as`/string-key/ignored entries, single and multi-target, export keyword and export_top_level_ids; observed via importer, wildcard import, host exports() and non-local reads in functions), a random file-system/history generator, a bounded-exhaustive sweep over all 3-module import graphs x failure placements, and the corpus; distinct = distinct request lines; non-trivial = at least one module file, one operation and two module statements".into();
     rep.max_samples = 6;
     let open: Vec<String> = rep.known_open().iter().filter_map(|e| e.get("id").and_then(|x| x.as_str()).map(|s| s.to_string())).collect();
     let drv = if args.driver.is_empty() { None } else { Some(Driver::spawn(&args.driver)) };
@@ -2847,7 +3104,7 @@ fn main() {
             .iter()
             .any(|e| e.get("id").and_then(|x| x.as_str()) == Some(id) && e.get("status").and_then(|x| x.as_str()) == Some("fixed"))
     };
-    let flags = Flags { alias: fixed("F-C18-1"), canon: fixed("F-C18-3"), dotted: fixed("F-C18-4"), str_alias: fixed("F-C18-5"), exports_first: fixed("F-C18-7") };
+    let flags = Flags { alias: fixed("F-C18-1"), canon: fixed("F-C18-3"), dotted: fixed("F-C18-4"), str_alias: fixed("F-C18-5"), exports_first: fixed("F-C18-7"), wild_refresh: fixed("F-C18-10") };
     let filter_f2 = open.iter().any(|x| x == "F-C18-2");
     let mut cx = Ctx { rep, drv, scratch, k_fail: 0, d_fail: 0, known_hits: Default::default(), open, flags };
 
@@ -2959,6 +3216,11 @@ fn main() {
 
     // 3. graph families and random scenarios
     let (n_graph, n_random) = if thorough { (12000, 40000) } else { (1200, 3000) };
+    let n_nested = if thorough { 6000 } else { 600 };
+    for _ in 0..n_nested {
+        let sc = nested_family(&mut rng);
+        cx.one(&sc);
+    }
     let n_top = if thorough { 8000 } else { 800 };
     for _ in 0..n_top {
         let sc = toplevel_family(&mut rng);
